@@ -7,7 +7,7 @@ namespace Pta
 
 /-! ## `pumlParse` = tag slicing, then line recognisers, then aggregation -/
 
-/-- everything `pumlParse` does after the per-line recognisers -/
+/-- everything `pumlParse` does after the per-line recognisers and the alias check -/
 def pumlAgg (modules : List PModule) (rawDeps : List (Str × Str)) : Parsed' :=
   let aliases := modules.filterMap fun m => m.alias.map fun a => (a, m.name)
   let unify (x : Str) : Str := match (aliases.filter (·.1 == x)).getLast? with | some p => p.2 | none => x
@@ -21,9 +21,42 @@ theorem pumlParse_eq (content : Str) :
       match pumlBody (pyStrip content) with
       | .error e => .error e
       | .ok body =>
-        .ok (pumlAgg ((splitLines body).flatMap lineModules) ((splitLines body).filterMap lineDependency)) := by
+        if aliasesConsistent ((splitLines body).flatMap lineModules) = true then
+          .ok (pumlAgg ((splitLines body).flatMap lineModules) ((splitLines body).filterMap lineDependency))
+        else .error .pumlParsingError := by
   unfold pumlParse
   cases pumlBody (pyStrip content) <;> rfl
+
+/-- the check of `_get_modules_by_alias`, unpacked -/
+theorem aliasesConsistent_iff_forall (modules : List PModule) :
+    aliasesConsistent modules = true ↔
+      ∀ m1 ∈ modules, ∀ m2 ∈ modules, ∀ a, m1.alias = some a → m2.alias = some a → m1.name = m2.name := by
+  unfold aliasesConsistent
+  simp only [List.all_eq_true]
+  constructor
+  · intro h m1 h1 m2 h2 a ha1 ha2
+    have := h m1 h1 m2 h2
+    rw [ha1, ha2] at this
+    simpa using this
+  · intro h m1 h1 m2 h2
+    cases ha1 : m1.alias with
+    | none => rfl
+    | some a1 =>
+      cases ha2 : m2.alias with
+      | none => rfl
+      | some a2 =>
+        simp only [Bool.or_eq_true, bne_iff_ne, ne_eq, beq_iff_eq]
+        by_cases e : a1 = a2
+        · subst e; exact .inr (h m1 h1 m2 h2 a1 ha1 ha2)
+        · exact .inl e
+
+/-- the parser rejects the diagram as soon as two declarations give one alias to different names -/
+theorem aliasesConsistent_false_of_conflict (modules : List PModule) (m1 m2 : PModule) (a : Str)
+    (h1 : m1 ∈ modules) (h2 : m2 ∈ modules) (ha1 : m1.alias = some a) (ha2 : m2.alias = some a)
+    (hne : m1.name ≠ m2.name) : aliasesConsistent modules = false := by
+  cases h : aliasesConsistent modules with
+  | false => rfl
+  | true => exact absurd ((aliasesConsistent_iff_forall modules).1 h m1 h1 m2 h2 a ha1 ha2) hne
 
 /-! ## `dedup` -/
 
@@ -318,6 +351,19 @@ theorem functionalTbl_iff (tbl : List (Str × Str)) :
     by_cases hpq : p.1 = q.1
     · exact .inr (h p hp q hq hpq)
     · exact .inl hpq
+
+/-- the model's check is functionality of the alias table -/
+theorem aliasesConsistent_eq_functionalTbl (modules : List PModule) :
+    aliasesConsistent modules = functionalTbl (modules.filterMap fun m => m.alias.map fun a => (a, m.name)) := by
+  rw [Bool.eq_iff_iff, aliasesConsistent_iff_forall, functionalTbl_iff]
+  simp only [List.mem_filterMap, Option.map_eq_some_iff]
+  constructor
+  · rintro h p ⟨m1, hm1, a1, ha1, rfl⟩ q ⟨m2, hm2, a2, ha2, rfl⟩ heq
+    simp only at heq
+    subst heq
+    exact h m1 hm1 m2 hm2 a1 ha1 ha2
+  · intro h m1 hm1 m2 hm2 a ha1 ha2
+    exact h (a, m1.name) ⟨m1, hm1, a, ha1, rfl⟩ (a, m2.name) ⟨m2, hm2, a, ha2, rfl⟩ rfl
 
 theorem unifyWith_hit (tbl : List (Str × Str)) (hf : functionalTbl tbl = true) (a n : Str) (h : (a, n) ∈ tbl) :
     unifyWith tbl a = n := by
